@@ -165,13 +165,15 @@ func (c *Ctx) BV(v uint64, w int) *Term {
 
 // Var declares (once) and returns a variable. w==0 for Bool.
 func (c *Ctx) Var(name string, w int) *Term {
-	if _, ok := c.Decls[name]; !ok {
-		if w == 0 {
-			c.Decls[name] = fmt.Sprintf("(declare-const %s Bool)", name)
-		} else {
-			c.Decls[name] = fmt.Sprintf("(declare-const %s (_ BitVec %d))", name, w)
-		}
+	decl := fmt.Sprintf("(declare-const %s (_ BitVec %d))", name, w)
+	if w == 0 {
+		decl = fmt.Sprintf("(declare-const %s Bool)", name)
+	}
+	if old, ok := c.Decls[name]; !ok {
+		c.Decls[name] = decl
 		c.DeclOrder = append(c.DeclOrder, name)
+	} else if old != decl {
+		panic("smt: variable " + name + " declared with two sorts")
 	}
 	return c.mk(&Term{Op: OpVar, W: w, Name: name})
 }
